@@ -457,9 +457,25 @@ def _find_base_grid(res, rng, tier):
     t0 = time.time()
     n = acc = rej = 0
     mcs = [300, 1000, 5000, 65536, 10**6, 2**32 - 1, 2**40, 2**63]
+    # dense part: FEW log steps (K = ceiling - num_reserved ≤ 16, thorough ≤ 48) × every power of two, 3·2^k and 10^k, plus random
+    # points — the Newton iteration of `_find_base` converges slowest there (resonant max_count values)
+    kmax = 16 if tier == "quick" else 48
+    dense_mc = sorted(set([2**k for k in range(9, 64)] + [3 * 2**k for k in range(8, 62)] + [10**k for k in range(3, 19)]
+                          + [rng.randrange(300, 2**63) for _ in range(core.B(10) if tier == "quick" else 200)]))
+    if tier == "quick":
+        dense_mc = [m for m in dense_mc if m & (m - 1) == 0] + rng.sample(dense_mc, 25)
+    grid = []
     for cls, um, nrs in ((s.CountMinLog8, 255, [0, 1, 15, 100, 200, 240, 250, 253]), (s.CountMinLog16, 65535, [0, 1, 1023, 30000, 65000, 65533])):
         for mc in mcs:
             for nr in nrs:
+                grid.append((cls, um, mc, nr))
+        for K in range(1, kmax + 1):
+            for mc in dense_mc:
+                grid.append((cls, um, mc, um - K))
+    res.count("find_base_dense_points", sum(1 for g in grid if g[1] - g[3] <= kmax))
+    if True:
+        if True:
+            for cls, um, mc, nr in grid:
                 if nr >= mc:
                     continue
                 n += 1
@@ -523,12 +539,14 @@ def check_C15(tier, seed):
 def check_C20(tier, seed):
     import slice_misc
 
-    return _simple("C20", tier, seed, slice_misc.truncate,
+    return _simple("C20", tier, seed, slice_misc.truncate_all,
                    "files written by save() for the five classes and several shapes; EVERY prefix length 0..len through the class loader and (count-min) the module-level load(): raise vs return, "
                    "and the exception class compared with the Lean npLoad model prefix by prefix (files ≤ 4000 bytes); `uniqueSig` (the end-record signature occurs exactly once) is evaluated by "
-                   "the model on every file. Exhaustive over all crash points of each file.",
+                   "the model on every file. Exhaustive over all crash points of each file. "
+                   "CRAFTED stream: linear count-min and heavy-hitter files whose 32-bit counters spell an embedded zip archive (uniqueSig false): a complete embedded sketch file makes "
+                   "hundreds of strict prefixes load on the UNCHANGED tree (known finding C20:embedded-complete-archive); an embedded archive lacking a required member must make the loader raise.",
                    assumptions=["np.load / zipfile._EndRecData are modelled from the installed NumPy 2.x / CPython 3.12 sources, not verified",
-                                "table contents crafted to embed the bytes 50 4B 05 06 are excluded by the uniqueSig hypothesis"])
+                                "theorem C20_prefix needs the uniqueSig hypothesis; theorem C20_needs_uniqueSig and the known finding show that it cannot be dropped"])
 
 
 def check_C16(tier, seed):
@@ -605,7 +623,7 @@ def check_C07(tier, seed):
     pid = "C07"
     res = Result(pid, tier, seed)
     res.rule = ("deterministic clauses: empty sketch → exactly 0.0; linear-counting value never above that of n occupied registers (hll_query arrays, p 7..16); registers via the hll slice. "
-                "Envelope clause (NOT a theorem): seeded Monte-Carlo refutation search on the real code — n on a log grid 0..40·2^p incl. threshold[p] and 5·2^p, several seeds per cell, "
+                "Envelope clause (NOT a theorem): seeded Monte-Carlo refutation search on the real code — n on a log grid 0..40·2^p incl. threshold[p], 5·2^p and 6.5·2^p/8·2^p (beyond the table end with empty registers left), several seeds per cell, "
                 "relative error ≤ k·1.04/√m with k = 7 (normal-tail false-alarm bound < 1e-9 per run incl. the union over cells).")
     lean = lean_check(pid)
     rng = rng_for(seed, pid)
@@ -638,7 +656,8 @@ def _hll_envelope(res, rng, tier):
         m = 1 << p
         from sketchnu.hll_constants import sub_algorithm_threshold
         thr = int(sub_algorithm_threshold[p - 7])
-        grid = sorted(set([1, 2, m // 10 or 1, m // 2, m, thr, int(2.5 * m), 5 * m] + ([10 * m, 40 * m] if (tier != QUICK and p <= 13) else [])))
+        # 6.5m / 8m: above the 5m switch point while some register is usually still empty (the bias-corrected branch beyond the table end)
+        grid = sorted(set([1, 2, m // 10 or 1, m // 2, m, thr, int(2.5 * m), 5 * m, int(6.5 * m)] + ([8 * m] if p >= 12 else []) + ([10 * m, 40 * m] if (tier != QUICK and p <= 13) else [])))
         for n in grid:
             for rep in range(core.B(1) if tier == QUICK else 3):
                 seed = rng.choice([0, rng.randrange(2**64)])
